@@ -1051,8 +1051,16 @@ class Path:
         d = simp(as_z3int(a) - as_z3int(b))
         if isinstance(d, int) and d in (1, -1):
             big = a if d == 1 else b
-            # big & (big - 1) == clear lowest set bit: model via spec function lowbit
-            raise Unsupported('x & (x-1)')
+            # big & (big - 1) clears the lowest set bit of big.  Modelled by a fresh integer r with the
+            # facts (law CL, self-tested in tools/selftest_c06.py): for big >= 1: 0 <= r < big and
+            # (r == 0  <=>  big == 2^(bit_length(big)-1)); for big == 0: r == 0.  Negative big: unsupported.
+            bz = as_z3int(big)
+            if self.branch(simp(bz < 0), 'x&(x-1): x<0'):
+                raise Unsupported('x & (x-1) with negative x')
+            r = z3.Int(self.fresh_name('clrlow'))
+            self.assume(z3.And(r >= 0, z3.Implies(bz == 0, r == 0),
+                               z3.Implies(bz >= 1, z3.And(r < bz, (r == 0) == (bz == theory.pow2(theory.bl(bz) - 1))))), fact=True)
+            return r
         raise Unsupported(f'symbolic & of {a} and {b}')
 
     def bitor(self, a, b):
